@@ -571,6 +571,65 @@ func c19GateProgram(fn *c19Func, idx int, form string) (string, bool) {
 	return p.source(), true
 }
 
+// gateVarSources: the exported constants and variables, and the exported fields ("T.f") of the exported struct types
+func (a *c19API) gateVarSources() []c19Var {
+	out := append([]c19Var{}, a.vars...)
+	for _, t := range a.types {
+		if !t.isStruct || !ast.IsExported(t.name) {
+			continue
+		}
+		for _, f := range t.fields {
+			if !f.embedded && ast.IsExported(f.name) {
+				out = append(out, c19Var{t.file.pkg, t.name + "." + f.name})
+			}
+		}
+	}
+	return out
+}
+
+// c19GateVarProgram: a VARIABLE initialised from an exported identifier of the library (constant or variable),
+// sliced at a run-time index, is passed to the gate parameter idx of fn.  Slicing a variable is never a constant
+// expression, so the program must not compile, whatever the identifier's type.
+func c19GateVarProgram(v c19Var, fn *c19Func, idx int) (string, bool) {
+	p := newProg(false)
+	callee, ok := p.callee(fn)
+	if !ok {
+		return "", false
+	}
+	valias := p.imp(v.pkg.path)
+	osAlias := p.imp("os")
+	if k := strings.Index(v.name, "."); k > 0 {
+		// an exported field of an exported struct type: T.f
+		p.decl("gs", fmt.Sprintf("var gs %s.%s", valias, v.name[:k]))
+		p.decl("gv", "var gv = gs"+v.name[k:])
+	} else {
+		p.decl("gv", fmt.Sprintf("var gv = %s.%s", valias, v.name))
+	}
+	p.decl("gk", "var gk = len("+osAlias+".Args)")
+	var args []string
+	for j, prm := range fn.params {
+		el, variadic := c19Elem(prm.typ)
+		if j == idx {
+			args = append(args, "gv[gk:]")
+			continue
+		}
+		if variadic {
+			continue
+		}
+		if c19IsGate(fn.file, el) {
+			args = append(args, `"x"`)
+			continue
+		}
+		t, ok := p.typeText(fn.file, prm.typ)
+		if !ok {
+			return "", false
+		}
+		args = append(args, "*new("+t+")")
+	}
+	p.decls = append(p.decls, fmt.Sprintf("func _() { %s(%s) }", callee, strings.Join(args, ", ")))
+	return p.source(), true
+}
+
 func c19GenericProgram(p *c19Prog, fn *c19Func, idx int, callee string) (string, bool) {
 	var tparams, ptypes, args []string
 	for j, prm := range fn.params {
@@ -1096,6 +1155,16 @@ func (a *c19API) job(stream string, in []string) *c19Job {
 			j.src, ok = c19GateProgram(fn, idx, in[4])
 		}
 		j.lang = in[5]
+	case "gatevar":
+		fn := a.findFunc(in[2], in[3], in[4])
+		idx, err := strconv.Atoi(in[5])
+		if fn != nil && err == nil && idx >= 0 && idx < len(fn.params) {
+			for _, v := range a.gateVarSources() {
+				if v.pkg.id == in[0] && v.name == in[1] {
+					j.src, ok = c19GateVarProgram(v, fn, idx)
+				}
+			}
+		}
 	case "conv":
 		j.src, ok = a.convProgram(in[0], in[1], in[2], in[3], in[4])
 	case "lit":
@@ -1126,6 +1195,7 @@ func init() {
 		})
 	}
 	one("gate", 6)
+	one("gatevar", 6)
 	one("conv", 5)
 	one("lit", 3)
 	one("field", 4)
@@ -1268,6 +1338,25 @@ func runC19(c *caseWriter) (string, bool, map[string]int) {
 				if f == "tp" {
 					add("gate", fn.file.pkg.id, fn.recv, fn.name, strconv.Itoa(i), f, "go1.16")
 				}
+			}
+		}
+	}
+
+	// 1b. every exported constant and variable of the two packages, loaded into a variable and sliced at a run-time
+	// index, handed to gate parameters (the first three gated functions of each package)
+	{
+		perPkg := map[string]int{}
+		for _, fn := range api.funcs {
+			for i, prm := range fn.params {
+				el, _ := c19Elem(prm.typ)
+				if !c19IsGate(fn.file, el) || perPkg[fn.file.pkg.id] >= 3 {
+					continue
+				}
+				perPkg[fn.file.pkg.id]++
+				for _, v := range api.gateVarSources() {
+					add("gatevar", v.pkg.id, v.name, fn.file.pkg.id, fn.recv, fn.name, strconv.Itoa(i))
+				}
+				break
 			}
 		}
 	}
